@@ -62,6 +62,15 @@ RepSites(c) == {<<Gs(c)[k].rpos, Gs(c)[k].rtype, Gs(c)[k].model6>> : k \in Repor
 CensusApplies == R.census = 1
 C01_Census     == CensusApplies => LET dc == DeclCensus IN \A c \in AllConfs : RepSites(c) = dc
 C01_ExactlyOnce == CensusApplies => \A c \in AllConfs : Cardinality(Reported(c)) = Cardinality(RepSites(c))
+(* a reported group carries the identity of the residue its atom was read from: chain, number, insertion code (and the
+   residue name where the position holds one residue type) - nothing is reported under a label that is not in the file *)
+C01_Identity == \A c \in Confs : \A k \in Reported(c) :
+                   LET g == Gs(c)[k] IN
+                   (g.rpos >= 1 /\ g.rpos <= Len(R.inres)) =>
+                      LET r == R.inres[g.rpos] IN
+                      /\ (g.chain = r.chain \/ (g.chain = "_" /\ r.chain = " "))
+                      /\ g.num = r.num /\ g.ic = r.ic
+                      /\ (R.onetype = 1 => g.resn = r.resn)
 (* no chimera: a conformation holds one residue type per position (chain, number, insertion code) whenever the input
    does (R.onetype: per model, a position carries one residue name among the records shared by all conformations, and
    per alternate-location label).  R.resat[c] = distinct <<chain, number, code, residue name>> of the atoms of c. *)
